@@ -194,7 +194,7 @@ fn fuzz_seeds(id: &str, dir: &str) -> i32 {
                 x
             };
             for i in 0..fv::corpus::CORPUS_TOTAL {
-                for tag in 0..13u8 {
+                for tag in 0..14u8 {
                     if (i + tag as usize) % 4 != 0 {
                         continue;
                     }
